@@ -13,11 +13,16 @@ package main
 
 import (
 	"bytes"
+	"crypto"
 	"crypto/ecdsa"
+	"crypto/hmac"
 	"crypto/rsa"
+	_ "crypto/sha256"
+	_ "crypto/sha512"
 	"encoding/base64"
 	"encoding/json"
 	"fmt"
+	"math/big"
 	"math/rand"
 	"os"
 	"runtime"
@@ -117,8 +122,10 @@ func one(c *rp.Ctx, kr *keyring, i int, raw json.RawMessage) (r rp.Result) {
 		rp.Bug("case %d: %v", i, err)
 	}
 	// the random choices of a case depend on its content, not on its position (isolated re-runs agree)
+	// (of its abstract content: vcheck re-marshals a case when it re-runs it alone)
 	h := 0
-	for _, b := range raw {
+	for _, b := range []byte(fmt.Sprintf("%s|%s|%s|%s|%s|%d|%d|%s|%s|%s|%v", cs.Kind, cs.Alg, cs.Enc, cs.Zip, cs.Keykind,
+		cs.Size, cs.Aad, cs.Profile, cs.Form, cs.Variant, cs.Private)) {
 		h = (h*131 + int(b)) % 1000003
 	}
 	rng := rand.New(rand.NewSource(int64(c.Seed)*1000003 + int64(h)))
@@ -596,6 +603,11 @@ func replayObject(c *rp.Ctx, kr *keyring, cs *joseCase, salt int, rng *rand.Rand
 						fail(r, false, "verification with the jwk taken from the protected header fails: %v %s", o2.err, o2.panicked)
 					}
 				}
+				if cs.Kind == "jws" {
+					if err := independentVerify(cs.Alg, public(k1), ser); err != nil {
+						fail(r, false, "the signature does not verify as %s of RFC 7518 with an independent verifier: %v", cs.Alg, err)
+					}
+				}
 				// the harness's own re-serialization must be as good as the library's, or the tamper runs mean nothing
 				pb, _, _ := ser.get("protected")
 				if len(fails) > 0 {
@@ -640,4 +652,54 @@ func replayObject(c *rp.Ctx, kr *keyring, cs *joseCase, salt int, rng *rand.Rand
 		}
 	}
 	return finish()
+}
+
+// independentVerify checks a JWS signature with the standard library only: the signing input is
+// ASCII(b64(protected) '.' b64(payload)) and the algorithm is what RFC 7518 section 3 says "alg" names.
+func independentVerify(alg string, pub interface{}, ser *serial) error {
+	p, _, err1 := ser.get("protected")
+	pl, _, err2 := ser.get("payload")
+	sig, _, err3 := ser.get("signature")
+	if err1 != nil || err2 != nil || err3 != nil {
+		return fmt.Errorf("fields: %v %v %v", err1, err2, err3)
+	}
+	input := []byte(base64.RawURLEncoding.EncodeToString(p) + "." + base64.RawURLEncoding.EncodeToString(pl))
+	var h crypto.Hash
+	switch alg[2:] {
+	case "256":
+		h = crypto.SHA256
+	case "384":
+		h = crypto.SHA384
+	case "512":
+		h = crypto.SHA512
+	default:
+		rp.Bug("alg %q", alg)
+	}
+	hh := h.New()
+	hh.Write(input)
+	digest := hh.Sum(nil)
+	switch alg[:2] {
+	case "HS":
+		m := hmac.New(h.New, pub.([]byte))
+		m.Write(input)
+		if !hmac.Equal(m.Sum(nil), sig) {
+			return fmt.Errorf("HMAC differs")
+		}
+	case "RS":
+		return rsa.VerifyPKCS1v15(pub.(*rsa.PublicKey), h, digest, sig)
+	case "PS":
+		return rsa.VerifyPSS(pub.(*rsa.PublicKey), h, digest, sig, &rsa.PSSOptions{SaltLength: rsa.PSSSaltLengthAuto})
+	case "ES":
+		k := pub.(*ecdsa.PublicKey)
+		n := (k.Curve.Params().BitSize + 7) / 8
+		if len(sig) != 2*n {
+			return fmt.Errorf("signature is %d octets, R||S is %d", len(sig), 2*n)
+		}
+		if !ecdsa.Verify(k, digest, new(big.Int).SetBytes(sig[:n]), new(big.Int).SetBytes(sig[n:])) {
+			return fmt.Errorf("ECDSA verification failed")
+		}
+	default:
+		rp.Bug("alg %q", alg)
+	}
+	return nil
 }
